@@ -264,6 +264,7 @@ def main(chk, replay=None):
     if chk.quick:
         slices.append('float')
     slices.append('reordered')
+    slices.append('many-par')
     mc_reader(chk)
     header_part(chk)
     for sl in slices:
